@@ -6,6 +6,7 @@ import (
 	"errors"
 	"fmt"
 	"strings"
+	"sync"
 
 	"github.com/celestiaorg/go-header"
 	goheaderp2p "github.com/celestiaorg/go-header/p2p"
@@ -32,6 +33,27 @@ const (
 	dataSync   syncType = "dataSync"
 )
 
+// initGuardedStore serializes Init with Head. On first use Head adopts the head it finds on disk as the
+// store's height, and Init writes the head to disk before it publishes it: a Head call between the two
+// (a peer's head request, the validation of a gossiped header) makes Init publish a height that is
+// already set, which go-header treats as fatal.
+type initGuardedStore[H header.Header[H]] struct {
+	*goheaderstore.Store[H]
+	mu sync.RWMutex
+}
+
+func (s *initGuardedStore[H]) Init(ctx context.Context, initial H) error {
+	s.mu.Lock()
+	defer s.mu.Unlock()
+	return s.Store.Init(ctx, initial)
+}
+
+func (s *initGuardedStore[H]) Head(ctx context.Context, opts ...header.HeadOption[H]) (H, error) {
+	s.mu.RLock()
+	defer s.mu.RUnlock()
+	return s.Store.Head(ctx, opts...)
+}
+
 // SyncService is the P2P Sync Service for blocks and headers.
 //
 // Uses the go-header library for handling all P2P logic.
@@ -47,7 +69,7 @@ type SyncService[H header.Header[H]] struct {
 	ex                *goheaderp2p.Exchange[H]
 	sub               *goheaderp2p.Subscriber[H]
 	p2pServer         *goheaderp2p.ExchangeServer[H]
-	store             *goheaderstore.Store[H]
+	store             *initGuardedStore[H]
 	syncer            *goheadersync.Syncer[H]
 	syncerStatus      *SyncerStatus
 	topicSubscription header.Subscription[H]
@@ -105,7 +127,7 @@ func newSyncService[H header.Header[H]](
 		conf:         conf,
 		genesis:      genesis,
 		p2p:          p2p,
-		store:        ss,
+		store:        &initGuardedStore[H]{Store: ss},
 		syncType:     syncType,
 		logger:       logger,
 		syncerStatus: new(SyncerStatus),
@@ -113,7 +135,7 @@ func newSyncService[H header.Header[H]](
 }
 
 // Store returns the store of the SyncService
-func (syncService *SyncService[H]) Store() *goheaderstore.Store[H] {
+func (syncService *SyncService[H]) Store() header.Store[H] {
 	return syncService.store
 }
 
@@ -312,7 +334,7 @@ func (syncService *SyncService[H]) Stop(ctx context.Context) error {
 // newP2PServer constructs a new ExchangeServer using the given Network as a protocolID suffix.
 func newP2PServer[H header.Header[H]](
 	host host.Host,
-	store *goheaderstore.Store[H],
+	store header.Store[H],
 	network string,
 	opts ...goheaderp2p.Option[goheaderp2p.ServerParameters],
 ) (*goheaderp2p.ExchangeServer[H], error) {
